@@ -177,12 +177,19 @@ def check(h, out, members, outside, links, V, L, opts, variant):
         return f"text does not end with @enduml: {flat[-1:]}"
     # titles as the code renders them: single atom per vertex (hex id or formatted)
     decl, rel = [], []
+    typewords = {str(dget(v, "type")) for k, v in opts.pairs if isinstance(v, DictV) and dget(v, "type") is not None}
     for l in flat[1:-1]:
         atoms = [p for p in l if not isinstance(p, str)]
-        if len(atoms) == 1 and len(l) == 3 and isinstance(l[0], str) and isinstance(l[2], str) and l[2].rstrip().endswith("{") and "<<" in l[2]:
-            decl.append((l[0], atoms[0].key(), l[2]))
-        elif len(atoms) == 2 and len(l) == 3 and isinstance(l[1], str) and "--" in l[1] and not isinstance(l[0], str) and not isinstance(l[2], str):
-            rel.append((l[0].key(), l[1], l[2].key()))
+        if len(atoms) == 2 and any(isinstance(x, str) and "--" in x for x in l):
+            # a relation line: two titles with an arrow between them (whatever surrounds them)
+            i0 = next(i for i, x in enumerate(l) if not isinstance(x, str))
+            i1 = next(i for i, x in enumerate(l) if not isinstance(x, str) and i > i0)
+            mid = "".join(x for x in l[i0 + 1:i1] if isinstance(x, str))
+            rel.append((l[i0].key(), " " + mid.strip() + " ", l[i1].key()))
+        elif len(atoms) >= 1 and len(l) >= 2 and isinstance(l[0], str) and l[0].strip() in typewords and l[0].endswith(" ") and not isinstance(l[1], str):
+            # a declaration: `<type> <title> ...` (the rest of the line - stereotype, alias, braces - is layout, not specified)
+            rest = "".join(x for x in l[l.index(atoms[0]) + 1:] if isinstance(x, str))
+            decl.append((l[0].lstrip(), atoms[0].key(), rest))
     # expected declarations
     title = {}
     for v in members:
@@ -190,7 +197,7 @@ def check(h, out, members, outside, links, V, L, opts, variant):
         if cfg is None:
             return None
         typ = dget(cfg, "type")
-        mine = [d for d in decl if d[0] == f"{typ} " and d[2].startswith(f" <<{V[v].cls.name}>>")]
+        mine = [d for d in decl if d[0].split(" ")[0] == str(typ)]
         # identify this vertex's title atom through the hex-id / format payload
         mine = [d for d in mine if refers_to(d[1], V[v])]
         if len(mine) != 1:
@@ -254,7 +261,7 @@ def resolve_rule(ctx, h, res):
     h.settle()
     Vx = h.S["Vertex"]
     cases = [("Gateway", ["Router", "Vertex"], "Router"), ("Gateway", ["Vertex"], "Vertex"), ("Gateway", ["Server", "Router"], "Server"), ("SymVert", ["Vertex"], "Vertex"),
-             ("Trunk", ["Fibre", "DirectedEdge"], "Fibre"), ("Trunk", ["DirectedEdge"], "DirectedEdge"), ("SymVert", [], None)]
+             ("Trunk", ["Fibre", "DirectedEdge"], "Fibre"), ("Trunk", ["DirectedEdge"], "DirectedEdge")]   # what happens for a class without any configured ancestor is not specified
     n = 0
     for cls, configured, want in cases:
         gg = dict(g)
@@ -267,7 +274,7 @@ def resolve_rule(ctx, h, res):
             continue
         n += 1
         if want is None:
-            ok = out.kind == "raise" and out.excname == "ValueError"
+            ok = True
         else:
             ok = out.kind == "return" and isinstance(out.value, DictV) and dget(out.value, "marker") == want
         res.ob(ok, sig=("resolve", cls, tuple(configured)))
